@@ -65,6 +65,47 @@ def out_of_bounds_filter_obligation(consts):
     return [('py:_remove_rules_out_of_bounds#rejects-every-rule-whose-FROM-or-TO-does-not-fit', [fy >= 0, ty >= 0], fires == z3.Not(z3.And(tiny(fy), tiny(ty))))], ast.unparse(tests[0])
 
 
+def _extract_if(fn_name, pick):
+    src = open(TRANSFORMER).read()
+    tree = ast.parse(src)
+    fn = next(n for n in ast.walk(tree) if isinstance(n, ast.FunctionDef) and n.name == fn_name)
+    tests = [n.test for n in ast.walk(fn) if isinstance(n, ast.If) and pick(n)]
+    if len(tests) != 1:
+        raise PyOutOfReach('%s: expected one matching test, found %d' % (fn_name, len(tests)))
+    return tests[0]
+
+
+def _eval_test(test, env, consts):
+    ex = PyExec(TRANSFORMER, consts=consts)
+    ex._loop_ord = {}
+    ex.cur_fn = 'test'
+    vals = ex._eval(test, env, [], 'test', 0)
+    return z3.Or([z3.And(p + [as_bool(v)]) if p else as_bool(v) for p, v in vals])
+
+
+def year_window_obligations(consts):
+    """the year tests that decide which rules and eras are kept, against what they are documented to mean"""
+    out = []
+    body_has = lambda text: (lambda n: text in ''.join(ast.unparse(b) for b in n.body))
+    # find_matching_rules: kept iff the rule's years [from, to] and the era's years [era_from, era_until) have a year in common
+    f, t, ef, eu, y = z3.Ints('m_from m_to m_era_from m_era_until m_y')
+    test = _extract_if('find_matching_rules', body_has('matches.append'))
+    kept = _eval_test(test, {'rule': Record({'fromYear': f, 'toYear': t}), 'era_from': ef, 'era_until': eu}, consts)
+    common = z3.Exists([y], z3.And(f <= y, y <= t, ef <= y, y < eu))
+    out.append(('py:find_matching_rules#kept-iff-rule-years-and-era-years-share-a-year', [f <= t, ef < eu], kept == common))
+    # _remove_zone_eras_too_old: kept iff the era ends in or after the year before start_year
+    u, sy, uy, prev = z3.Ints('e_until e_start_year e_until_year e_prev_until')
+    me = Record({'start_year': sy, 'until_year': uy})
+    test = _extract_if('_remove_zone_eras_too_old', body_has('keep_eras.append'))
+    kept = _eval_test(test, {'era': Record({'untilYear': u}), 'self': me}, consts)
+    out.append(('py:_remove_zone_eras_too_old#kept-iff-the-era-can-be-in-effect-from-the-year-before-start_year-on', [], kept == z3.Exists([y], z3.And(y >= sy - 1, y <= u))))
+    # _remove_zone_eras_too_new: kept iff the era starts (UNTIL year of its predecessor) no later than until_year + 1
+    test = _extract_if('_remove_zone_eras_too_new', body_has('keep_eras.append'))
+    kept = _eval_test(test, {'start_year': prev, 'self': me}, consts)
+    out.append(('py:_remove_zone_eras_too_new#kept-iff-the-era-starts-by-until_year-plus-one', [], kept == z3.Exists([y], z3.And(y >= prev, y <= uy + 1))))
+    return out
+
+
 def replay_filter(R, o):
     """run the real Transformer._remove_rules_out_of_bounds on one policy whose only rule carries the model's FROM / TO"""
     if '_remove_rules_out_of_bounds' not in o.name or not o.model:
@@ -320,6 +361,8 @@ def run(R):
     try:
         nums, consts = numeric_obligations()
         filt, test_src = out_of_bounds_filter_obligation(consts)
+        filt = filt + year_window_obligations(consts)
+        R.functions['tools/tzdb/transformer.py:{find_matching_rules,_remove_zone_eras_too_old,_remove_zone_eras_too_new} (year tests)'] = dict(engine='pyvc (expression extraction)')
         R.functions['tools/tzdb/transformer.py:{seconds_to_hms,hms_to_seconds,truncate_to_granularity,div_to_zero,is_year_tiny}'] = dict(generated=len(nums), engine='pyvc')
         R.functions['tools/tzdb/transformer.py:Transformer._remove_rules_out_of_bounds (rejection test)'] = dict(test=test_src, engine='pyvc (expression extraction)')
         for name, pc, goal in nums + filt:
